@@ -123,6 +123,9 @@ Conforms(e) ==
     [] e.op = "ecb.hom" -> BHom(e)
     [] e.op = "ecb.OnCurve" -> BOnCurve(e)
     [] e.op \in {"shift.par", "ecb.par"} -> e.out.panic = ""      \* concurrent first use answers as later sequential use (compared in the driver)
+    [] e.op = "shift.new" ->                  \* NewPrivateKey accepts exactly the scalars 0 < k < n
+         LET v == BNFromBytesBE(e.in.buf) valid == v # <<>> /\ BNLt(v, OrderOf(e.in.curve))
+         IN e.out.panic = "" /\ e.out.ok = valid /\ (valid => e.out.key = e.in.buf)
     [] e.op = "shift.b" -> BShift(e)
     [] e.op = "shift.derive" -> BDerive(e)
     [] OTHER -> FALSE
